@@ -52,10 +52,11 @@ class Run:
         self.byseq = {}
         self.objs = []         # strong refs while the scenario runs (dropped before the gc observation)
         self.wrefs = []        # (allocation number, weakref)
-        self.model_wrefs = []
+        self.model_wrefs = []   # (weakref to model, number of the load that built it)
         self.inits = {}        # allocation number -> list of init records
         self.ctx_stack = []
         self.main_names = []
+        self.raised = []       # numbers of the loads that raised (for whatever reason)
         self.nctx = 0
         self.nobj = 0
         self.classes = {}
@@ -65,7 +66,7 @@ class Run:
     def snap(self):
         cnt = sorted({c.__dict__.get("_tx_instrumented", 0) for c in self.classes.values()})
         store = sum(len(c.__dict__.get("_tx_obj_attrs", {})) for c in self.classes.values())
-        return (cnt[0] if len(cnt) == 1 else cnt), store
+        return (cnt[0] if len(cnt) == 1 else 0 if not cnt else cnt), store
 
     def ev(self, *a):
         self.events.append(list(a) + list(self.snap()))
@@ -195,13 +196,23 @@ def run_load(run, lid):
     run.ctx_stack.append(cid)
     run.main_names.append(load["main"]["name"])
     write_files(run, load["main"], set())
+    for lib in run.sc.get("libs", []):
+        write_files(run, lib, set())
+    path = os.path.join(run.root, load["main"]["name"])
+    how = load.get("how", "file")
     try:
         try:
-            run.mm.model_from_file(os.path.join(run.root, load["main"]["name"]))
+            if how == "file":
+                run.mm.model_from_file(path)
+            elif how == "str_named":
+                run.mm.model_from_str(file_text(load["main"]), file_name=path)
+            else:
+                run.mm.model_from_str(file_text(load["main"]))
         finally:
             run.ctx_stack.pop()
             run.main_names.pop()
     except MprocBoom as e:
+        run.raised.append(cid)
         if e.cid != cid:
             # raised by a load that a callback of this load had started: this load fails
             run.ev("F", cid)
@@ -209,12 +220,13 @@ def run_load(run, lid):
         run.ev("E", cid)
         raise
     except BaseException:
+        run.raised.append(cid)
         run.ev("F", cid)
         raise
     run.ev("E", cid)
 
 
-class Provider(sp.PlainNameImportURI):
+class Scripted:
     def __call__(self, obj, attr, obj_ref):
         n = obj_ref.obj_name
         if n == "provboom":
@@ -222,6 +234,42 @@ class Provider(sp.PlainNameImportURI):
         if n == "postp":
             return Postponed()
         return super().__call__(obj, attr, obj_ref)
+
+
+class Provider(Scripted, sp.PlainNameImportURI):
+    pass
+
+
+class ProviderGlobalRepo(Scripted, sp.PlainNameGlobalRepo):
+    pass
+
+
+class ProviderFQNGlobalRepo(Scripted, sp.FQNGlobalRepo):
+    pass
+
+
+def repositories(run, mm):
+    """every model registered in a repository reachable from the metamodel or its scope providers:
+    (repository, key, number of the load that built the model or None)"""
+    creators = [(w(), cid) for w, cid in run.model_wrefs if w() is not None]
+    out = []
+
+    def add(where, mapping):
+        for k, m in mapping.items():
+            cid = [c for o, c in creators if o is m]
+            key = os.path.basename(k)
+            out.append([where, key, cid[0] if cid else None])
+    gr = getattr(mm, "_tx_model_repository", None)
+    if gr is not None:
+        add("all_models", gr.all_models.filename_to_model)
+        add("local_models", gr.local_models.filename_to_model)
+    bm = getattr(mm, "builtin_models", None)
+    if bm is not None and hasattr(bm, "filename_to_model"):
+        add("builtin_models", bm.filename_to_model)
+    for prov in set(mm.scope_providers.values()):
+        for i, m in enumerate(getattr(prov, "models_to_be_added_directly", [])):
+            add("provider", {"direct%d" % i: m})
+    return sorted(out, key=lambda x: (x[0], x[1]))
 
 
 def class_dict_snapshot(classes):
@@ -252,30 +300,42 @@ def dump_model(m):
 
 REF_MAIN = 'import "zz_ref_inc.m";\nitem q { sub r; };\nref q;\nref w;\n'
 REF_INC = 'item w { sub v; };\n'
+REF_STR = 'item q { sub r; };\nref q;\n'
 
 
 def reference_load(run, mm):
-    """a fixed two-file load; returns a dump of the result and of the __init__ calls it made"""
+    """a fixed load (two files with the import provider, a string with the repository providers);
+    returns a dump of the result, of the __init__ calls it made and of the repositories after it"""
     for n, t in (("zz_ref_main.m", REF_MAIN), ("zz_ref_inc.m", REF_INC)):
         with open(os.path.join(run.root, n), "w") as fh:
             fh.write(t)
+    for lib in run.sc.get("libs", []):
+        write_files(run, lib, set())
     e0 = len(run.events)
     run.ctx_stack.append(-1)
+    run.main_names.append("zz_ref_main.m")
     try:
-        m = mm.model_from_file(os.path.join(run.root, "zz_ref_main.m"))
+        if run.sc.get("provider", "importuri") == "importuri":
+            m = mm.model_from_file(os.path.join(run.root, "zz_ref_main.m"))
+        else:
+            m = mm.model_from_str(REF_STR)
         d = dump_model(m)
     except Exception as e:  # noqa
         d = {"error": type(e).__name__ + ": " + str(e)[:80]}
     finally:
         run.ctx_stack.pop()
+        run.main_names.pop()
     evs = [[e[0], e[3]] if e[0] == "A" else [e[0]] for e in run.events[e0:]]
     del run.events[e0:]
-    return {"dump": d, "events": evs}
+    return {"dump": d, "events": evs, "repo": [[w, k] for w, k, _ in repositories(run, mm)]}
 
 
 def make_mm(run, sc):
     mm = metamodel_from_str(GRAMMAR, classes=list(run.classes.values()), global_repository=bool(sc.get("global")))
-    prov = Provider()
+    kind = sc.get("provider", "importuri")
+    prov = {"importuri": Provider, "globalrepo": ProviderGlobalRepo, "fqn_globalrepo": ProviderFQNGlobalRepo}[kind]()
+    for lib in sc.get("libs", []):
+        prov.register_models(os.path.join(run.root, lib["name"]))
     mm.register_scope_providers({"*.*": prov})
 
     def hook_proc(h):
@@ -291,7 +351,7 @@ def make_mm(run, sc):
     def mproc(model, _mm):
         for it in model.items:
             if run.sc["behav"].get("mproc:%s" % it.name) == "boom":
-                if run.main_names and os.path.basename(model._tx_filename) == run.main_names[-1]:
+                if run.main_names and (model._tx_filename is None or os.path.basename(model._tx_filename) == run.main_names[-1]):
                     raise MprocBoom(run.cur())       # after the load proper has finished
                 raise Boom("model processor of an imported model")
 
@@ -306,7 +366,7 @@ def run_scenario(sc):
 
     def start(model):
         try:
-            run.model_wrefs.append(weakref.ref(model))
+            run.model_wrefs.append((weakref.ref(model), run.cur()))
         except TypeError:
             pass
         return orig_start(model)
@@ -330,11 +390,10 @@ def run_scenario(sc):
             e = None
             after = class_dict_snapshot(run.classes)
             top = {"load": lid, "outcome": outcome, "dict_diff": dict_diff(before, after, run.classes), "snap": list(run.snap())}
-            if sc.get("global"):
-                repo = run.mm._tx_model_repository.all_models.filename_to_model
-                top["repo"] = sorted(os.path.basename(k) for k in repo)
+            top["repo"] = repositories(run, run.mm)
             res["tops"].append(top)
         res["events"] = list(run.events)
+        res["raised_ctx"] = list(run.raised)
         res["inits"] = json.loads(json.dumps({str(k): v for k, v in run.inits.items()}))
         res["tx_attrs"] = {n: list(c._tx_attrs) for n, c in run.classes.items()}
         failed = [t for t in res["tops"] if t["outcome"] not in ("ok",)]
@@ -346,7 +405,7 @@ def run_scenario(sc):
             run.seq = {}
             gc.collect()
             alive = [n for n, w in run.wrefs if w() is not None]
-            malive = sum(1 for w in run.model_wrefs if w() is not None)
+            malive = sum(1 for w, _ in run.model_wrefs if w() is not None)
             res["alive"] = alive
             res["models_alive"] = malive
             if alive:
@@ -363,9 +422,11 @@ def run_scenario(sc):
             got = reference_load(run, run.mm)
             run2 = Run(sc, root)
             run2.classes = make_classes(run2, sc["classes"], sc["shape"])
-            run2.mm = make_mm(run2, dict(sc, behav={}))
-            run2.sc = dict(sc, behav={})
+            run2.mm = make_mm(run2, sc)
             want = reference_load(run2, run2.mm)
+            if any(t["outcome"] == "ok" for t in res["tops"]):
+                # earlier successful loads legitimately stay cached: only the result is comparable
+                got, want = {"dump": got["dump"]}, {"dump": want["dump"]}
             res["next"] = {"same": got == want, "got": got, "want": want}
             res["next_dict_diff"] = dict_diff(before, class_dict_snapshot(run.classes), run.classes)
         res["problems"] = run.problems
